@@ -106,7 +106,7 @@ type vsFakePoll struct {
 	deleted    bool
 	adds, dels int
 	frees      int
-	interestW  bool // EPOLLOUT registered (PollR2RW .. PollRW2R / PollDetach): write events are fetched only then (C08)
+	interestW  bool // EPOLLOUT interest as set by PollR2RW / PollRW2R (C08: write events are fetched only while it is set and !deleted)
 }
 
 func (p *vsFakePoll) Wait() error    { return nil }
@@ -122,7 +122,6 @@ func (p *vsFakePoll) Control(operator *FDOperator, event PollEvent) error {
 		p.s.ghost("epoll add")
 	case PollDetach:
 		p.deleted = true
-		p.interestW = false
 		p.dels++
 		p.s.ghost("epoll del")
 	case PollR2RW:
